@@ -8,6 +8,11 @@ HERE = os.path.dirname(os.path.dirname(os.path.abspath(__file__)))
 
 # property -> (category, technique, level text, level note, design ref)
 CHECKS = {
+    "C13": ("exploration", "independent container readers (bin, RIFF, BK tape demodulator) over outputs of the real format functions and of shim-observed CLI runs",
+            "Contract-style wrappers feed the real file_formats functions with synthetic (base, image, name) and decode what they return with "
+            "independent readers; CLI runs are observed through an audit-hook/snapshot shim so that the set of files written is compared with "
+            "the set requested. Sampling with crafted boundary classes (checksum sums at multiples of 65535, sizes 0..4096).",
+            "Trusts the tape demodulator's reading of the BK format (validated on the pinned fixtures).", "3 C13"),
     "C14": ("exploration", "runtime contract monitor against the interpreter's own ascii/koi8_r codecs, exhaustive over bytes and BMP",
             "Exhaustive enumeration of the codec's whole input space (256 bytes, all BMP code points) plus random strings and an "
             "assembly-level leg through the real assembler; the space is finite and small, so exhaustive observation is the right level.",
